@@ -9,6 +9,7 @@ import (
 	"fmt"
 
 	"github.com/oasisprotocol/curve25519-voi/primitives/ed25519"
+	"github.com/oasisprotocol/curve25519-voi/primitives/ed25519/extra/cache"
 	"github.com/oasisprotocol/curve25519-voi/zzverif/gen"
 	"github.com/oasisprotocol/curve25519-voi/zzverif/mon"
 	"github.com/oasisprotocol/curve25519-voi/zzverif/ref"
@@ -26,6 +27,8 @@ func libOpts(fl int, c gen.EdCase) *ed25519.Options {
 
 const stdLibFlags = 1 | 2 | 4 | 16
 
+var otherKey = ed25519.NewKeyFromSeed(make([]byte, 32)).Public().(ed25519.PublicKey)
+
 func runCase(r *mon.Run, c gen.EdCase) {
 	pk, msg, sig := mon.UnHex(c.PK), mon.UnHex(c.Msg), mon.UnHex(c.Sig)
 	facts := ref.Facts(pk, msg, sig, c.Dom2())
@@ -33,6 +36,10 @@ func runCase(r *mon.Run, c gen.EdCase) {
 	if facts.LenOK {
 		key = c.Key()
 	}
+	// third entry point: the caching verifier with a capacity-1 LRU that already holds another key, so that this
+	// case's key is inserted by an eviction and every later verification is a cache hit
+	cv := cache.NewVerifier(cache.NewLRUCache(1))
+	cv.AddPublicKey(otherKey)
 	exp, expErr := ed25519.NewExpandedPublicKey(pk)
 	if (expErr == nil) != facts.A.OK {
 		r.Violate("NewExpandedPublicKey/decode-mismatch", fmt.Sprintf("NewExpandedPublicKey err=%v but reference says A decodable=%v", expErr, facts.A.OK), c)
@@ -64,6 +71,16 @@ func runCase(r *mon.Run, c gen.EdCase) {
 			r.Eval(nil)
 			if pan2 != wantPanic || (!pan2 && got2 != want) {
 				r.Violate(fmt.Sprintf("VerifyExpandedWithOptions/%s/want=%v", reason, want), fmt.Sprintf("flags=%+v family=%s: got=%v panic=%v(%s) want=%v", flags, c.Fam, got2, pan2, pmsg2, want), c)
+			}
+		}
+		if len(pk) == 32 {
+			var got3 bool
+			pan3, pmsg3 := mon.Try(func() { got3 = cv.VerifyWithOptions(pk, msg, sig, opts) })
+			r.Eval(nil)
+			// where plain verification documents a panic (incompatible options) the cached verifier may panic or,
+			// when the key does not even decode, return false - it must never accept
+			if (wantPanic && !pan3 && got3) || (!wantPanic && (pan3 || got3 != want)) {
+				r.Violate(fmt.Sprintf("cache.VerifyWithOptions/%s/want=%v", reason, want), fmt.Sprintf("flags=%+v family=%s: got=%v panic=%v(%s) want=%v", flags, c.Fam, got3, pan3, pmsg3, want), c)
 			}
 		}
 		if fl == stdLibFlags {
